@@ -4,7 +4,7 @@ LEAN_MODULES = ["CifModel.Props.C16"]
 REQUIRED = ["CifModel.C16_init_numb_locale_restored", "CifModel.C16_autoinit_numb_locale_restored",
             "CifModel.C16_set_c_saves_current", "CifModel.C16_set_c_failure_keeps"]
 GEN = []
-FAMILIES = ["locale"]
+FAMILIES = ["locale", "api16"]
 # request streams of the other properties' families, re-run with exact per-case leak accounting (see harness/alloc.h);
 # only families whose executors declare themselves leak-clean take part
 LEAK_FAMILIES = ["cifio", "ladder", "analyze", "reserved", "setq", "valid", "norm", "numb", "todbl", "todig", "initnumb",
